@@ -117,6 +117,10 @@ func vdGuard(fn func() ([]string, error)) (r vdRes, exit bool) {
 		stack string
 	}
 	done := make(chan outT, 1)
+	// the watchdog timer is created before and stopped after the measured window (thousands of pending
+	// 10 s timers would make the runtime's timer heap grow inside it)
+	wd := time.NewTimer(vdHangTimeout)
+	defer wd.Stop()
 	var m0, m1 runtime.MemStats
 	runtime.ReadMemStats(&m0)
 	go func() {
@@ -135,7 +139,7 @@ func vdGuard(fn func() ([]string, error)) (r vdRes, exit bool) {
 	var o outT
 	select {
 	case o = <-done:
-	case <-time.After(vdHangTimeout):
+	case <-wd.C:
 		buf := make([]byte, 1<<16)
 		buf = buf[:runtime.Stack(buf, true)]
 		site := "?"
